@@ -178,6 +178,7 @@ type pstate struct {
 }
 
 type world struct {
+	longBursts      bool // attemptsCase: some bursts of hundreds / tens of thousands of wrong attempts
 	k               *engine.Case
 	r               *rand.Rand
 	cf              conf
